@@ -116,7 +116,7 @@ SpareLines(i) ==
     [] i.defect = "unused_block" -> <<"target.smtp spare {", "    targets tcp://127.0.0.1:2526", "}">>
     [] OTHER -> <<>>
 EndpLines(i) ==
-  <<"smtp tcp://127.0.0.1:0 {">> \o
+  <<"smtp unix://%T/smtp.sock {">> \o
   (IF i.host = "" THEN <<"    hostname ep.example.org">> ELSE <<>>) \o
   <<IF i.defect = "undefined_ref" THEN "    deliver_to &nosuch" ELSE "    deliver_to &fwd",
     "    check &inbound",
